@@ -347,9 +347,14 @@ fn span_json(s: &tx3_lang::ast::Span) -> Value {
 /// What the diagnostic hands to whoever displays it: the first label as (offset, length), and whether the text the
 /// diagnostic carries can be read at that place.
 fn label_json(d: &dyn miette::Diagnostic) -> Value {
-    let Some(l) = d.labels().and_then(|mut ls| ls.next()) else { return Value::Null };
-    let readable = d.source_code().map(|src| src.read_span(l.inner(), 0, 0).is_ok());
-    json!({"offset": l.offset(), "len": l.len(), "readable": readable})
+    // the conversion of a span into a display span is code of the crate too: a span it cannot convert (start after
+    // end) must show as such, not take the whole observation with it
+    let r = guarded(|| {
+        let Some(l) = d.labels().and_then(|mut ls| ls.next()) else { return Value::Null };
+        let readable = d.source_code().map(|src| src.read_span(l.inner(), 0, 0).is_ok());
+        json!({"offset": l.offset(), "len": l.len(), "readable": readable})
+    });
+    r.unwrap_or_else(|site| json!({"panic": site}))
 }
 
 fn analysis_error_json(e: &tx3_lang::analyzing::Error) -> Value {
@@ -1004,6 +1009,24 @@ pub fn run(opts: &Opts, out: &mut Emitter) {
                 let variant = ts.concat();
                 out.case("literal-sweep", || json!({"input": variant, "name": name, "obs": observe(&variant)}));
             }
+        }
+    }
+    // a prefix operator on an operand whose node has no span of its own (numbers, booleans, unit, a call), at every
+    // position where the analyzer reports the expression itself: whatever span the operation is given must still be
+    // a span of the text
+    for lit in ["1", "true", "()", "tip_slot()", "0xab", "\"s\""] {
+        let programs = [
+            format!("party A;\nasset T = !{lit}.\"X\";\ntx t() {{\n  output {{\n    to: A,\n    amount: Ada(1),\n  }}\n}}\n"),
+            format!("party A;\nasset T = 0xab.!{lit};\ntx t() {{\n  output {{\n    to: A,\n    amount: Ada(1),\n  }}\n}}\n"),
+            format!("party A;\ntx t() {{\n  output {{\n    to: A,\n    amount: Ada(1),\n  }}\n  metadata {{\n    !{lit}: \"x\",\n  }}\n}}\n"),
+            format!("party A;\ntx t() {{\n  output {{\n    to: A,\n    amount: Ada(1),\n  }}\n  metadata {{\n    1: !{lit},\n  }}\n}}\n"),
+            format!("party A;\ntx t() {{\n  output {{\n    to: A,\n    amount: Ada(1),\n  }}\n  cardano::treasury_donation {{\n    coin: !{lit},\n  }}\n}}\n"),
+            format!("party A;\ntx t() {{\n  output {{\n    to: A,\n    amount: Ada(1),\n  }}\n  cardano::withdrawal {{\n    from: A,\n    amount: !{lit},\n    redeemer: (),\n  }}\n}}\n"),
+            format!("party A;\ntx t() {{\n  output {{\n    to: A,\n    amount: Ada(1),\n  }}\n  cardano::plutus_witness {{\n    version: !{lit},\n    script: 0xab,\n  }}\n}}\n"),
+            format!("party A;\ntx t() {{\n  output {{\n    to: !{lit},\n    amount: !{lit},\n  }}\n  validity {{\n    since_slot: !{lit},\n  }}\n}}\n"),
+        ];
+        for text in programs {
+            out.case("negated-literal", || json!({"input": text, "obs": observe(&text)}));
         }
     }
     // unclosed: an opener of every bracketing construct written 1..64 times and never closed (a comment inside a
